@@ -815,6 +815,14 @@ func (e Engine) Run(t *simrt.Tape, c simrt.Case, x *simrt.Ctx) *simrt.Result {
 		os.WriteFile(pat, []byte("grammar cli;\nTK = /[z-a]/;\nstart = TK;\n"), 0o644)
 		lalr := filepath.Join(dir, "lalrpanic.grammar")
 		os.WriteFile(lalr, []byte("grammar cli;\nstart = start;\n@left \"+\";\n"), 0o644)
+		// specifications that make SEVERAL stages of the generator fail in one run (scanner automaton
+		// and parsing table are built in different stages)
+		multi := filepath.Join(dir, "multistage.grammar")
+		os.WriteFile(multi, []byte([]string{
+			"grammar cli;\nID = /[a-z/;\nstart = start \"+\" start | ID;\n",
+			"grammar cli;\nAA = /[a-z]+/;\nBB = /[a-c]+/;\nstart = start AA start | BB;\n",
+			"grammar cli;\nAA = /a{3,1}/;\nBB = /ab*/;\nCC = /a+/;\nstart = AA | BB | CC | start start;\n",
+		}[t.Draw(3)]), 0o644)
 		empty := filepath.Join(dir, "empty.grammar")
 		os.WriteFile(empty, nil, 0o644)
 		os.Mkdir(filepath.Join(dir, "adir"), 0o755)
@@ -840,6 +848,7 @@ func (e Engine) Run(t *simrt.Tape, c simrt.Case, x *simrt.Ctx) *simrt.Result {
 			{"binary_garbage", []string{"-out", filepath.Join(dir, "out"), bin}, true},
 			{"empty_file", []string{"-out", filepath.Join(dir, "out"), empty}, true},
 			{"bad_pattern", []string{"-out", filepath.Join(dir, "out"), pat}, true},
+			{"several_stages_fail", []string{"-out", filepath.Join(dir, "out"), "-name", "multi", multi}, true},
 			{"conflict_without_terminal_and_directive", []string{"-out", filepath.Join(dir, "out"), "-name", "lalrp", lalr}, true},
 			{"out_missing", []string{"-out", filepath.Join(dir, "nowhere"), good}, true},
 			{"out_is_file", []string{"-out", filepath.Join(dir, "afile"), good}, true},
